@@ -621,6 +621,14 @@ class Fn:
             if a.ty != b.ty or a.ty.kind not in ("int", "dur", "tp"):
                 fail("std::%s on %r, %r" % (name, a.ty, b.ty))
             return Val("(%s %s %s)" % (name, a.s, b.s), a.ty)   # TRUSTED: std::min/max on a total order
+        if name == "clamp" and len(args) == 3:
+            if src != "std::clamp":
+                fail("callee `%s` is not std::clamp" % src)
+            v, lo, hi = [self.expr(a) for a in args]
+            if not (v.ty == lo.ty == hi.ty) or v.ty.kind not in ("int", "dur", "tp"):
+                fail("std::clamp on %r, %r, %r" % (v.ty, lo.ty, hi.ty))
+            # TRUSTED: std::clamp(v, lo, hi) = (v < lo) ? lo : (hi < v) ? hi : v
+            return Val("(if %s < %s then %s else (if %s < %s then %s else %s))" % (v.s, lo.s, lo.s, hi.s, v.s, hi.s, v.s), v.ty)
         if name in ("min", "max") and len(args) == 0 and kind == "CXXMethodDecl":
             m = re.match(r"^std::numeric_limits<([A-Za-z0-9_: ]+)>::(min|max)$", src)
             if not m or m.group(2) != name or (m.group(1), name) not in NUM_LIMITS:
@@ -920,7 +928,8 @@ class Decision:
                     cond, th, el = sp[0], [sp[1]], [sp[2]]
             if cond is not None:
                 for p in path:
-                    if not p.startswith("neutral "):
+                    # a lock guard, or a local that is only declared (default constructed chrono value / no initialiser)
+                    if not p.startswith("neutral ") and not re.match(r"^decl \w+ = (Duration\(\))?$", p):
                         fail("statement `%s` precedes a condition" % p[:60])
                 c = as_prop(self.t.expr(cond))
                 rest = ss[i + 1:]
@@ -936,8 +945,37 @@ class Decision:
             i += 1
             if k == "ReturnStmt" or (k in STRIP and _strip(s)["kind"] == "CXXThrowExpr") or k == "CXXThrowExpr":
                 break
-        leaf = [p for p in path if not p.startswith("neutral ")]
+        leaf = normalise_leaf([p for p in path if not p.startswith("neutral ")])
         return pad + self.classify(leaf)
+
+
+def normalise_leaf(leaf):
+    """canonical effect sequence of a path, modulo spellings that cannot change its meaning:
+      * a `return;` at the end of a void function;
+      * `T x;` (default constructed, never read) followed later by `x = E`  ==  `T x = E`;
+      * std::stack's `top()/pop()/push()/emplace()` are its container's `back()/pop_back()/push_back()/emplace_back()`"""
+    leaf = list(leaf)
+    if leaf and leaf[-1] == "return ":
+        leaf = leaf[:-1]
+    out = []
+    for s in leaf:
+        m = re.match(r"^operator=\((\w+),(.*)\)$", s)
+        if m:
+            x = m.group(1)
+            idx = [i for i, o in enumerate(out) if re.match(r"^decl %s = (\w+\(\))?$" % re.escape(x), o)]
+            if idx and not any(re.search(r"\b%s\b" % re.escape(x), o) for o in out[idx[-1] + 1:]) \
+                    and not re.search(r"\b%s\b" % re.escape(x), m.group(2)):
+                del out[idx[-1]]
+                out.append("decl %s = %s" % (x, m.group(2)))
+                continue
+        out.append(s)
+    syn = [(".back()", ".top()"), (".pop_back()", ".pop()")]
+    res = []
+    for s in out:
+        for a, b in syn:
+            s = s.replace(a, b)
+        res.append(s)
+    return res
 
 
 def classify_table(table):
@@ -1001,9 +1039,12 @@ def tr_steptodos_due(repo, docs, src):
         t.file = _file_of(repo, docs, fn, src)
         t.opaque = {}
         top = [s for s in kids(body_of(fn))]
-        if not top or top[0]["kind"] != "DoStmt":
-            fail("StepTodos does not start with a do-loop")
-        dob = kids(top[0])[0]
+        if top and top[0]["kind"] == "DoStmt":
+            dob = kids(top[0])[0]
+        elif top and top[0]["kind"] == "ForStmt" and len(kids(top[0])) == 1:     # for(;;)
+            dob = kids(top[0])[0]
+        else:
+            fail("StepTodos does not start with a do-loop / for(;;)")
         ss = [s for s in kids(dob) if not _is_assert(s)]
         if len(ss) < 3:
             fail("do-body too short")
